@@ -20,7 +20,8 @@ MANIFEST = {
             'description, bound by the scheduler, unbound) to 2-4 pilots, '
             'pilots ending in every order and final state (also pilots not '
             'ending, and pilots of another task manager).  After every pilot '
-            'notification all tasks are compared with the expected effect.',
+            'notification all tasks are compared with the expected effect.'
+            '  Second session: 30% of the bound non-final tasks already carry an error record (non-zero exit on its way through output staging) when their pilot dies: the explanation must still name the pilot.',
     'note': 'facades are built with __new__ (upstream test idiom); the '
             'callback is registered by the real add_pilots; sampled, not '
             'enumerated.'}
